@@ -24,7 +24,21 @@ def two_builds(prop):
     return f
 
 PROPS = {"C01": c01, "C02": c02, "C03": two_builds("C03"), "C04": two_builds("C04"), "C08": two_builds("C08"),
+         "C06": two_builds("C06"),
+         "C10": lambda tier, dev: run_cs_property("C10", tier, [Campaign("C10", "plain")], assumptions=ASSUME_GENERIC, dev=dev),
          "C05": lambda tier, dev: run_cs_property("C05", tier, [Campaign("C05", "plain")], assumptions=ASSUME_GENERIC, dev=dev)}
+
+def external(prop, script):
+    """properties decided by a self-contained program under props/ (same CLI contract)"""
+    def f(tier, dev):
+        import subprocess
+        r = subprocess.run([sys.executable, os.path.join(driver.VERIF, script), "--tier", tier])
+        return r.returncode
+    return f
+
+PROPS["C18"] = external("C18", "props/c18/run.py")
+PROPS["C19"] = external("C19", "props/c19/run.py")
+EXTERNAL_REPLAY = {"C18": "props/c18/run.py", "C19": "props/c19/run.py", "C17": "props/c17/run.py"}
 
 def main():
     ap = argparse.ArgumentParser()
@@ -34,6 +48,9 @@ def main():
     ap.add_argument("--dev", action="store_true", help="development: skip shrinking, list every key")
     a = ap.parse_args()
     os.chdir(driver.VERIF)
+    if a.replay and a.prop in EXTERNAL_REPLAY:
+        import subprocess
+        sys.exit(subprocess.run([sys.executable, os.path.join(driver.VERIF, EXTERNAL_REPLAY[a.prop]), "--replay", a.replay]).returncode)
     if a.replay:
         mod, libcfg = driver.case_meta(a.replay)
         import hbuild
